@@ -16,8 +16,8 @@ from mc.common import FAMILIES, grid_rects, xinter, xinside, center_shape, num, 
 ID = 'C11'
 LEVEL = 'exploration'
 RULE = ("all valid dies with <=2 regions (kinds '#', 'dsp', fixed) on a 3x3-cell (quick: HALF, DEC1) or 3x2-cell (stretched cells 1x1.2 and 1x3) "
-        "grid x r in {1.42,1.5,1.7,1.99,2,3} x n in 1..N; initial_grid(rows, cols) for rows, cols <= 5 on empty dies of 5 sizes; two-call "
-        "sequences on dies with <=1 region. Non-trivial = calls that had to split at least one region (count or ratio not yet met); distinct by construction.")
+        "grid x r in {1.42,1.5,1.7,1.99,2,3} x n in 1..N (and dies of a few mm / um written in metres and of 1e5 units, also with n = 60, 250, 1000); initial_grid(rows, cols) for rows, cols <= 5 on empty dies of 5 sizes; all "
+        "ordered triples of calls from an 8-call menu on one die object for dies with <=1 region, and a grid followed by all ordered pairs of calls on empty dies. Non-trivial = calls that had to split at least one region (count or ratio not yet met); distinct by construction.")
 ASSUMPTIONS = ["aspect ratios compared with relative 1e-9; coordinates with 1e-9*scale",
                "r restricted to the admissible range (> sqrt 2; the API asserts r > 1.415)"]
 BOUNDS = {'quick': 'n<=12; 3x3 grid HALF/DEC1, stretched 3x2', 'thorough': 'n<=40; adds DEC3/DEC7/INT and 4x3 grid with <=2 regions'}
@@ -34,6 +34,10 @@ AX = {
     'S12': (lambda i: F(i), lambda j: F(12 * j, 10)),
     'S3': (lambda i: F(i), lambda j: F(3 * j)),
     'S13': (lambda i: F(13 * i, 10), lambda j: F(j)),
+    # designs written in metres: a die of a few millimetres / micrometres (tolerances that do not scale with the units)
+    'MILLI': (lambda i: F(i, 1000), lambda j: F(j, 1000)),
+    'MICRO': (lambda i: F(13 * i, 10 ** 7), lambda j: F(j, 10 ** 6)),
+    'KILO': (lambda i: F(100003 * i, 10), lambda j: F(100003 * j, 10)),
 }
 KINDS = ['#', 'dsp', 'fixed']
 
@@ -68,9 +72,11 @@ def die_descriptions(W, H, kmax):
 
 def plan(tier):
     if tier == 'quick':
-        return [('HALF', 3, 3, 2, 12), ('DEC1', 3, 3, 1, 12), ('S12', 3, 2, 1, 12), ('S3', 2, 2, 2, 12), ('S13', 2, 3, 1, 12)]
+        return [('HALF', 3, 3, 2, 12), ('DEC1', 3, 3, 1, 12), ('S12', 3, 2, 1, 12), ('S3', 2, 2, 2, 12), ('S13', 2, 3, 1, 12),
+                ('MILLI', 3, 2, 1, 12), ('MICRO', 2, 2, 1, 12), ('KILO', 2, 2, 1, 12)]
     return [('HALF', 3, 3, 2, 40), ('DEC1', 3, 3, 2, 40), ('DEC3', 3, 2, 2, 24), ('DEC7', 2, 3, 2, 24), ('INT', 4, 3, 2, 24),
-            ('S12', 3, 2, 2, 40), ('S3', 2, 2, 2, 40), ('S13', 2, 3, 2, 40)]
+            ('S12', 3, 2, 2, 40), ('S3', 2, 2, 2, 40), ('S13', 2, 3, 2, 40),
+            ('MILLI', 3, 2, 2, 40), ('MICRO', 2, 2, 2, 40), ('KILO', 2, 2, 2, 40)]
 
 
 def shards(tier):
@@ -81,8 +87,20 @@ def shards(tier):
         for lo in range(0, nd, step):
             out.append(dict(kind='split', fam=fam, W=W, H=H, kmax=kmax, N=N, lo=lo, hi=min(nd, lo + step)))
     out.append(dict(kind='grid'))
-    out.append(dict(kind='seq', tier=tier))
+    for (fam, W, H) in SEQ_FAMS:
+        nd = len(die_descriptions(W, H, 1))
+        for lo in range(0, nd, 8):
+            out.append(dict(kind='seq', fam=fam, W=W, H=H, lo=lo, hi=min(nd, lo + 8)))
+    for k in range(len(GRID_DIES)):
+        out.append(dict(kind='gridseq', die=k))
     return out
+
+
+# operation sequences: every ordered triple of calls from CALLS on every die with <=1 region; on empty dies a grid first
+SEQ_FAMS = (('HALF', 3, 3), ('DEC1', 3, 2), ('S12', 2, 2))
+CALLS = [(1.5, 1), (1.5, 3), (2.0, 2), (2.0, 5), (3.0, 1), (3.0, 12), (1.42, 7), (1.7, 4)]
+GRID_DIES = [(4, 4), (6, 3), (1, 1), (10.5, 2.5), (0.3, 0.7)]
+GRIDS = [(1, 4), (4, 1), (2, 3), (3, 2), (2, 2), (6, 2), (1, 2), (3, 3)]
 
 
 def build_die(fam, W, H, items):
@@ -121,7 +139,8 @@ def snapshot(d):
     return dict(refinable=[(fr(r), r.region) for r in refinable_of(d)],
                 blockages=[(id(r), r.center.x, r.center.y, r.shape.w, r.shape.h, r.region) for r in d.blockages],
                 fixed=[(id(r), r.center.x, r.center.y, r.shape.w, r.shape.h, r.region) for r in d.fixed_regions],
-                keep=list(d.blockages) + list(d.fixed_regions))
+                keep=list(d.blockages) + list(d.fixed_regions),
+                dims=(d.width, d.height, fr(d.bounding_box)))
 
 
 def post_conditions(case, res, attrs, before, d, scale, count_min=None, count_eq=None, rmax=None):
@@ -168,6 +187,10 @@ def post_conditions(case, res, attrs, before, d, scale, count_min=None, count_eq
     nf = [(id(r), r.center.x, r.center.y, r.shape.w, r.shape.h, r.region) for r in d.fixed_regions]
     if nb != before['blockages'] or nf != before['fixed']:
         bad('untouched', 'blockages and fixed regions unchanged', 'changed')
+    # ... and so is the die itself (the refined regions tile the SAME die)
+    dims = (d.width, d.height, fr(d.bounding_box))
+    if dims != before['dims']:
+        bad('die-altered', before['dims'], dims)
     return len(new)
 
 
@@ -224,15 +247,33 @@ def check_case(case, res):
             res.violation('grid-shape', case, attrs, [w / case['cols'], h / case['rows']],
                           [(c.shape.w, c.shape.h) for c in cells][:4])
         res.case('grid')
-    else:   # two-call sequence
-        fam, W, H = case['fam'], case['W'], case['H']
-        fx, fy = AX[fam]
-        scale = float(max(fx(W), fy(H)))
-        d = build_die(fam, W, H, case['items'])
-        attrs = dict(fam=fam, seq=True, r=case['calls'][-1][0], r_lt_2=case['calls'][-1][0] < 2, nregions=len(case['items']))
+    else:   # sequence of calls on one die object (optionally a grid first, on an empty die)
+        if case.get('w') is not None:
+            from frame.die.die import Die
+            fam, scale = 'plain', float(max(case['w'], case['h']))
+            d = Die({'width': case['w'], 'height': case['h']})
+        else:
+            fam, W, H = case['fam'], case['W'], case['H']
+            fx, fy = AX[fam]
+            scale = float(max(fx(W), fy(H)))
+            d = build_die(fam, W, H, case['items'])
+        last = case['calls'][-1]
+        attrs = dict(fam=fam, seq=True, r=last[0], r_lt_2=last[0] < 2, nregions=len(case.get('items', [])), ncalls=len(case['calls']),
+                     grid_first=case['calls'][0][0] == 'grid')
         grew = False
-        for (r, n) in case['calls']:
+        for call in case['calls']:
             before = snapshot(d)
+            if call[0] == 'grid':
+                try:
+                    d.initial_grid(call[1], call[2])
+                except Exception as e:  # noqa
+                    res.violation('raises', case, attrs, 'grid created', f'{type(e).__name__}: {e}')
+                    res.case('raised')
+                    return
+                post_conditions(case, res, dict(attrs, r=None, r_lt_2=False), before, d, scale, count_eq=call[1] * call[2])
+                grew = True
+                continue
+            r, n = call
             try:
                 d.split_refinable_regions(r, n)
             except Exception as e:  # noqa
@@ -252,8 +293,9 @@ def run_shard(shard, tier, res):
         fam, W, H = shard['fam'], shard['W'], shard['H']
         descs = die_descriptions(W, H, shard['kmax'])[shard['lo']:shard['hi']]
         for items in descs:
+            big = (60, 250, 1000) if fam in ('MILLI', 'MICRO', 'KILO') else ()
             for r in RS:
-                for n in range(1, shard['N'] + 1):
+                for n in tuple(range(1, shard['N'] + 1)) + big:
                     reset_frame_state()
                     check_case(dict(kind='split', fam=fam, W=W, H=H, items=[[list(a), k] for a, k in items], r=r, n=n), res)
         res.samples.append(dict(kind='split', fam=fam, W=W, H=H, items=[[list(a), k] for a, k in descs[-1]], r=1.5, n=5))
@@ -270,17 +312,21 @@ def run_shard(shard, tier, res):
                             reset_frame_state()
                             check_case(dict(kind='grid', w=w, h=h, rows=rows, cols=cols, strip=strip), res)
         res.samples.append(dict(kind='grid', w=6, h=3, rows=2, cols=5))
+    elif shard['kind'] == 'seq':
+        fam, W, H = shard['fam'], shard['W'], shard['H']
+        for items in die_descriptions(W, H, 1)[shard['lo']:shard['hi']]:
+            for calls in itertools.product(CALLS, repeat=3):
+                reset_frame_state()
+                check_case(dict(kind='seq', fam=fam, W=W, H=H, items=[[list(a), k] for a, k in items],
+                                calls=[list(c) for c in calls]), res)
+        res.samples.append(dict(kind='seq', fam=fam, W=W, H=H, items=[], calls=[[1.5, 1], [2.0, 2], [1.5, 2]]))
     else:
-        calls1 = [(1.5, 3), (2.0, 5), (3.0, 1)]
-        calls2 = [(1.42, 7), (3.0, 2), (2.0, 9), (1.7, 4)]
-        for (fam, W, H) in (('HALF', 3, 3), ('DEC1', 3, 2), ('S12', 2, 2)):
-            for items in die_descriptions(W, H, 1):
-                for c1 in calls1:
-                    for c2 in calls2:
-                        reset_frame_state()
-                        check_case(dict(kind='seq', fam=fam, W=W, H=H, items=[[list(a), k] for a, k in items],
-                                        calls=[list(c1), list(c2)]), res)
-        res.samples.append(dict(kind='seq', fam='HALF', W=3, H=3, items=[], calls=[[1.5, 3], [1.42, 7]]))
+        w, h = GRID_DIES[shard['die']]
+        for g in GRIDS:
+            for calls in itertools.product(CALLS, repeat=2):
+                reset_frame_state()
+                check_case(dict(kind='seq', w=w, h=h, calls=[['grid', g[0], g[1]]] + [list(c) for c in calls]), res)
+        res.samples.append(dict(kind='seq', w=w, h=h, calls=[['grid', 1, 4], [1.5, 3]]))
 
 
 replay = replay_via(check_case)
